@@ -584,3 +584,79 @@ func corruptBytes(r *Rng, b []byte) []byte {
 	}
 	return c
 }
+
+// probeEntries reads a decoder's dynamic table through the wire: one indexed representation per index
+// 62, 63, ... until the decoder answers "invalid index" (decoding an indexed field does not change the table).
+func probeEntries(d decoder) []hfield {
+	var out []hfield
+	for i := uint64(62); i < 62+4096; i++ {
+		o := d.apply(dop{Kind: "write", P: appendInt(nil, 7, i, 0x80, nil)})
+		d.apply(dop{Kind: "close"})
+		if o.Class != "WOk" || len(o.Fields) != 1 {
+			break
+		}
+		out = append(out, hfield{Name: o.Fields[0].Name, Value: o.Fields[0].Value})
+	}
+	return out
+}
+
+// genExactFillSession: header lists whose entries fill the dynamic table EXACTLY (entry sizes dividing the
+// table size), one byte under / over, re-sent so that the oldest entries are referenced, with table-size
+// changes to exactly the current size and one byte around it.
+func genExactFillSession(r *Rng) []sessOp {
+	T := []int{4096, 4096, 2048, 1024, 256, 128}[r.Intn(6)]
+	var ops []sessOp
+	if T != 4096 {
+		v := uint32(T)
+		ops = append(ops, sessOp{SetMax: &v})
+	}
+	es := []int{64, 128, 256, 512, 1024, 2048, 4096}
+	e := es[r.Intn(len(es))]
+	for e > T {
+		e /= 2
+	}
+	k := T / e
+	mk := func(i, size int) hfield {
+		name := fmt.Sprintf("x-%04d", i)
+		return hfield{Name: name, Value: strings.Repeat(string(rune('a'+i%26)), size-32-len(name))}
+	}
+	var fill []hfield
+	for i := 0; i < k; i++ {
+		sz := e
+		if i == k-1 {
+			sz += []int{0, 0, 0, -1, 1}[r.Intn(5)] // exactly full, one byte under, one byte over
+		}
+		fill = append(fill, mk(i, sz))
+	}
+	// the fill may arrive in one block or in several
+	if r.Bool() {
+		ops = append(ops, sessOp{Block: fill})
+	} else {
+		c := 1 + r.Intn(len(fill))
+		ops = append(ops, sessOp{Block: fill[:c]})
+		if c < len(fill) {
+			ops = append(ops, sessOp{Block: fill[c:]})
+		}
+	}
+	for rep := 0; rep < 2+r.Intn(2); rep++ {
+		switch r.Intn(5) {
+		case 0: // size change to exactly / around the current table size
+			v := uint32(T + []int{0, -1, 1, -e, 0}[r.Intn(5)])
+			if v > 4096 {
+				v = 4096
+			}
+			ops = append(ops, sessOp{SetMax: &v})
+		case 1: // one more entry of the same size: evicts exactly one
+			ops = append(ops, sessOp{Block: []hfield{mk(100+rep, e)}})
+		}
+		// the same list again: indexed representations reaching the oldest entries
+		again := append([]hfield(nil), fill...)
+		if r.Bool() {
+			for i, j := 0, len(again)-1; i < j; i, j = i+1, j-1 {
+				again[i], again[j] = again[j], again[i]
+			}
+		}
+		ops = append(ops, sessOp{Block: again})
+	}
+	return ops
+}
